@@ -1,7 +1,7 @@
 (* C14 -- pinned statements only (generated once by tools/pin.py from `Check`, then fixed); proofs in EbrP.v *)
 From Coq Require Import ZArith List Bool Lia Arith.
 Import ListNotations.
-Require Import Params Ebr EbrP EpochW EpochP.
+Require Import Params Ebr EbrP EbrNoStuckP EpochW EpochP.
 Local Open Scope Z_scope.
 
 Theorem C14_skew_inv :
@@ -94,4 +94,33 @@ Theorem C14_is_expired_spec :
   forall g e : Z, ep g -> ep e -> is_expired (2 * e) (2 * g) = (g - e >=? EXPIRE_AFTER).
 Proof. exact EpochP.is_expired_spec. Qed.
 Print Assumptions C14_is_expired_spec.
+
+
+(* ---- the model's defensive guards (try_advance / repin_without_collect only by a validated participant,
+   scanned participants exist) never fire on reachable states of well-formed programs (EbrNoStuckP.v) *)
+Theorem C14_no_guard_fires :
+  forall (s : state) (t : nat) (l : local),
+       NS s ->
+       getl s t = Some l -> frames l <> [] -> exists (s' : state) (o : list Z), micro s t = Some (s', o).
+Proof. exact EbrNoStuckP.micro_total. Qed.
+Print Assumptions C14_no_guard_fires.
+
+Theorem C14_no_stuck_invariant :
+  forall (s : state) (t : nat) (s' : state) (o : list Z), NS s -> micro s t = Some (s', o) -> NS s'.
+Proof. exact EbrNoStuckP.micro_ns. Qed.
+Print Assumptions C14_no_stuck_invariant.
+
+Theorem C14_no_stuck_initial :
+  forall (c : nat) (g0 : Z) (progs : list (list cmd)),
+       forallb prog_ok progs = true -> NS (init_state c g0 progs).
+Proof. exact EbrNoStuckP.init_ns. Qed.
+Print Assumptions C14_no_stuck_initial.
+
+Theorem C14_no_guard_fires_step :
+  forall (c : nat) (g0 : Z) (progs : list (list cmd)) (sched : list nat) (t : nat) (l : local),
+       forallb prog_ok progs = true ->
+       getl (srun (init_state c g0 progs) sched) t = Some l ->
+       frames l <> [] -> micro (srun (init_state c g0 progs) sched) t <> None.
+Proof. exact EbrNoStuckP.no_guard_fires_step. Qed.
+Print Assumptions C14_no_guard_fires_step.
 
